@@ -8,6 +8,7 @@ import sys
 import tokenize
 import warnings
 
+import common
 from common import Driver, NCPU
 import docs as DOCS
 from docs import sdocs_to_sx, sx_str
@@ -35,11 +36,12 @@ def impl_piece(value, st):
     with warnings.catch_warnings(record=True) as w:
         warnings.simplefilter('always')
         try:
-            sd = list(P.python_to_sdocs(value, indent=indent, width=width, depth=depth, ribbon_width=ribbon,
-                                        max_seq_len=msl, sort_dict_keys=sort))
-            # the text comes from the public entry point (so that the settings glue of __init__.py is on the path)
-            text = pp.pformat(value, indent=indent, width=width, depth=depth, ribbon_width=ribbon,
-                              max_seq_len=msl, sort_dict_keys=sort)
+            with common.time_limit():
+                sd = list(P.python_to_sdocs(value, indent=indent, width=width, depth=depth, ribbon_width=ribbon,
+                                            max_seq_len=msl, sort_dict_keys=sort))
+                # the text comes from the public entry point (so that the settings glue of __init__.py is on the path)
+                text = pp.pformat(value, indent=indent, width=width, depth=depth, ribbon_width=ribbon,
+                                  max_seq_len=msl, sort_dict_keys=sort)
             piece = '(%s %s)' % (sdocs_to_sx(sd), sx_str('text', text))
         except Exception as e:
             return '(error %s)' % type(e).__name__, None, ['raised']
